@@ -2,6 +2,7 @@ import Tbfmm.Spec.Fmm
 import Tbfmm.Model.Coord
 import Tbfmm.Model.Layout
 import Tbfmm.Model.P2P
+import Tbfmm.Model.Periodic
 /-!
 Line-protocol driver for the executable model (see DESIGN.md §4.1).  Reads commands on stdin, writes
 canonical text on stdout; the C++ harness reads the same commands and writes the same format.
@@ -32,6 +33,7 @@ structure DState where
   tree : Tree := default
   st : State := {}
   skip : Bool := false     -- after `build auto=1` (block size chosen by the library): nothing to model
+  wide : Bool := false          -- 16 x 64-bit counters instead of 64 x 16-bit
   leafIdxS : List Nat := []      -- target/source mode: source and target particle sets
   leafIdxT : List Nat := []
   treeS : Tree := default
@@ -183,6 +185,18 @@ def p2pRun (α : Type) [Scalar α] (conv : Nat → α) (back : α → Nat) (rout
     else (srcs, genericInner tgts)
   (s' ++ t').flatMap fun (_, a) => [back a.fx, back a.fy, back a.fz, back a.pot]
 
+def printTopCall : TopCall → String
+  | .m2mReal l ch => s!"CT M2M {l} 0 {ch.length} " ++ " ".intercalate (ch.map fun c => s!"{c.1}:{c.2}")
+  | .m2mVirt l codes => s!"CT M2M {l} 0 {codes.length} " ++ " ".intercalate (codes.map fun c => s!"0:{c}")
+  | .m2l l codes => s!"CT M2L {l} 0 {codes.length} " ++ " ".intercalate (codes.map fun c => s!"0:{c}")
+  | .l2lVirt l => s!"CT L2L {l} 0 1 0:0"
+  | .l2lReal l ch => s!"CT L2L {l} 0 {ch.length} " ++ " ".intercalate (ch.map fun c => s!"{c.1}:{c.2}")
+
+def kvInt (ts : List String) (key : String) (dflt : Int) : Int :=
+  match ts.find? (fun t => t.startsWith (key ++ "=")) with
+  | some t => ((t.drop (key.length + 1)).toString).toInt!
+  | none => dflt
+
 def kv (ts : List String) (key : String) (dflt : Nat) : Nat :=
   match ts.find? (fun t => t.startsWith (key ++ "=")) with
   | some t => ((t.drop (key.length + 1)).toString).toNat!
@@ -194,7 +208,7 @@ def step (d : DState) (line : String) : DState × List String :=
   match toks with
   | "case" :: name => ({}, ["== " ++ " ".intercalate name])
   | "tree" :: ts =>
-    ({ d with D := kv ts "D" 3, H := kv ts "H" 3, periodic := kv ts "periodic" 0 == 1 }, [])
+    ({ d with D := kv ts "D" 3, H := kv ts "H" 3, periodic := kv ts "periodic" 0 == 1, wide := kv ts "slotbits" 16 == 64 }, [])
   | "parts" :: n :: cs =>
     let n := n.toNat!
     let cs := natsOf cs
@@ -219,10 +233,27 @@ def step (d : DState) (line : String) : DState × List String :=
         ((sortNat (d.treeT.stored.map (·.2))).map fun p => s!"V R {p} {hexOf (d.st.r p)}"))
   | "exec" :: "tsm" :: ts =>
     let cs := executeTsm d.treeS d.treeT d.periodic (kv ts "flags" 63) (kv ts "upper" 2)
-    ({ d with st := applyCalls weight (d.H - 1) d.treeT.partsOf d.treeS.partsOf d.st cs }, cs.map printCall)
+    ({ d with st := applyCalls (if d.wide then weightWide else weight) (d.H - 1) d.treeT.partsOf d.treeS.partsOf d.st cs }, cs.map printCall)
+  | "exec" :: "periodictsm" :: ts =>
+    let n := kvInt ts "n" 0
+    let w := if d.wide then weightWide else weight
+    let run := fun fl => executeTsm d.treeS d.treeT true fl 1
+    let poT := d.treeT.partsOf; let poS := d.treeS.partsOf
+    let c1 := run 6
+    let st1 := applyCalls w (d.H - 1) poT poS d.st c1
+    -- upward part reads the source tree's level-1 cells, downward part writes the target tree's
+    let top := topTreeCalls d.D n ((d.treeS.level 1).flatten)
+    let topT := topTreeCalls d.D n ((d.treeT.level 1).flatten)
+    let top' := top.dropLast ++ (topT.getLast?.map (fun x => [x])).getD []
+    let st2 := top'.foldl applyTopCall st1
+    let c2 := run 9
+    let st3 := applyCalls w (d.H - 1) poT poS st2 c2
+    let c3 := run 48
+    let st4 := applyCalls w (d.H - 1) poT poS st3 c3
+    ({ d with st := st4 }, (c1.map printCall) ++ (top'.map printTopCall) ++ (c2.map printCall) ++ (c3.map printCall))
   | "exec" :: "omptsm" :: ts =>
     let cs := executeTsm d.treeS d.treeT d.periodic (kv ts "flags" 63) (kv ts "upper" 2) true
-    ({ d with st := applyCalls weight (d.H - 1) d.treeT.partsOf d.treeS.partsOf d.st cs }, cs.map printCall)
+    ({ d with st := applyCalls (if d.wide then weightWide else weight) (d.H - 1) d.treeT.partsOf d.treeS.partsOf d.st cs }, cs.map printCall)
   | "spec" :: "tsmelems" :: ts =>
     (d, (specElemsTsm d.D d.H d.periodic (shapeOf d.leafIdxS) (shapeOf d.leafIdxT) (kv ts "flags" 63) (kv ts "upper" 2)).map printElem)
   | "find" :: "tsmcell" :: which :: l :: is =>
@@ -332,21 +363,35 @@ def step (d : DState) (line : String) : DState × List String :=
   | "exec" :: "seq" :: ts =>
     let cs := executeSeq d.tree d.periodic (kv ts "flags" 63) (kv ts "upper" 2)
     let po := d.tree.partsOf
-    ({ d with st := applyCalls weight (d.H - 1) po po d.st cs }, cs.map printCall)
+    ({ d with st := applyCalls (if d.wide then weightWide else weight) (d.H - 1) po po d.st cs }, cs.map printCall)
   | "spec" :: "elems" :: ts =>
     (d, (specElems d.D d.H d.periodic (shapeOf d.leafIdx) (kv ts "flags" 63) (kv ts "upper" 2)).map printElem)
   | "exec" :: "seqc" :: ts =>
     let cs := executeSeq d.tree d.periodic (kv ts "flags" 63) (kv ts "upper" 2)
     let po := d.tree.partsOf
-    ({ d with st := applyCalls weight (d.H - 1) po po d.st cs }, cs.map printCall)
+    ({ d with st := applyCalls (if d.wide then weightWide else weight) (d.H - 1) po po d.st cs }, cs.map printCall)
   | "exec" :: "ompc" :: ts =>
     let cs := executeOmp d.tree d.periodic (kv ts "flags" 63) (kv ts "upper" 2)
     let po := d.tree.partsOf
-    ({ d with st := applyCalls weight (d.H - 1) po po d.st cs }, cs.map printCall)
+    ({ d with st := applyCalls (if d.wide then weightWide else weight) (d.H - 1) po po d.st cs }, cs.map printCall)
+  | "exec" :: "periodic" :: ts =>
+    let n := kvInt ts "n" 0
+    let omp := kv ts "omp" 0 == 1
+    let run := fun (t : Tree) fl => if omp then executeOmp t true fl 1 else executeSeq t true fl 1
+    let po := d.tree.partsOf
+    let c1 := run d.tree 6
+    let st1 := applyCalls (if d.wide then weightWide else weight) (d.H - 1) po po d.st c1
+    let top := topTreeCalls d.D n ((d.tree.level 1).flatten)
+    let st2 := top.foldl applyTopCall st1
+    let c2 := run d.tree 9
+    let st3 := applyCalls (if d.wide then weightWide else weight) (d.H - 1) po po st2 c2
+    let c3 := run d.tree 48
+    let st4 := applyCalls (if d.wide then weightWide else weight) (d.H - 1) po po st3 c3
+    ({ d with st := st4 }, (c1.map printCall) ++ (top.map printTopCall) ++ (c2.map printCall) ++ (c3.map printCall))
   | "exec" :: "omp" :: ts =>
     let cs := executeOmp d.tree d.periodic (kv ts "flags" 63) (kv ts "upper" 2)
     let po := d.tree.partsOf
-    ({ d with st := applyCalls weight (d.H - 1) po po d.st cs }, cs.map printCall)
+    ({ d with st := applyCalls (if d.wide then weightWide else weight) (d.H - 1) po po d.st cs }, cs.map printCall)
   | "find" :: "cell" :: l :: is =>
     let l := l.toNat!
     (d, (natsOf is).map fun i => match findGroup (d.tree.level l) i with
